@@ -54,11 +54,17 @@ def main(argv=None):
     ap.add_argument('--rule', default=None)
     ap.add_argument('--no-write', action='store_true')
     ap.add_argument('--no-selftest', action='store_true')
+    ap.add_argument('-v', '--verbose', action='store_true')
     a = ap.parse_args(argv)
     props = PROPS if a.prop == 'all' else [a.prop.upper()]
     worst = 0
     for p in props:
-        code, _ = run_property(p, a.tier, a.root, a.rule, write=not a.no_write, selftest=not a.no_selftest)
+        code, chk = run_property(p, a.tier, a.root, a.rule, write=not a.no_write, selftest=not a.no_selftest)
+        if a.verbose and chk is not None:
+            for o in chk.obs:
+                print('  %s %-6s %s — %s%s' % ('ok ' if o.ok else 'BAD', o.rule, o.where, o.what, (' — ' + o.detail) if o.detail and not o.ok else ''))
+                if not o.ok:
+                    print('      key: %s' % o.key)
         worst = max(worst, code)
     return worst
 
